@@ -393,6 +393,55 @@ def limited_stdout(argv, cwd, env, limit, timeout=60, tmpdir=None):
         os.close(fd)
 
 
+def nonblocking_stdout_run(binary, cwd, argv, shimdir, tmpdir, env=None, timeout=60):
+    """stdout is a one-page pipe that another holder of the same open file switches to non-blocking mode while the program is
+    already running (a shell pipeline whose other end is a program that does that to its descriptors), read slowly by a
+    reader that first waits: a write of more than a page then stops half-way with EAGAIN. Returns (Result, bytes the reader
+    received). The first git child is held back 250 ms so that the mode is switched after start-up and before the report."""
+    import fcntl
+    pdir = os.path.join(tmpdir, "nbplan-%d-%d" % (os.getpid(), random.getrandbits(30)))
+    plan = make_plan(pdir, [{"sig": "for-each-ref", "ord": -1, "mode": "delay", "pre_ms": 250, "max_ms": 300}])
+    e = base_env(env, shimdir=shimdir)
+    e["VERIF_SHIM_PLAN"] = plan
+    pr, pw = os.pipe()
+    try:
+        fcntl.fcntl(pw, fcntl.F_SETPIPE_SZ, 4096)
+    except OSError:
+        pass
+    got = tempfile.TemporaryFile(dir=tmpdir)
+    ef = tempfile.TemporaryFile(dir=tmpdir)
+    p = subprocess.Popen([binary] + list(argv), cwd=cwd, env=e, stdin=subprocess.DEVNULL, stdout=pw, stderr=ef, preexec_fn=os.setsid)
+    cat = subprocess.Popen([sys.executable, "-c", SLOWCAT, "700", "4", "600"], stdin=pr, stdout=got, stderr=subprocess.DEVNULL)
+    os.close(pr)
+    time.sleep(0.1)
+    fl = fcntl.fcntl(pw, fcntl.F_GETFL)
+    fcntl.fcntl(pw, fcntl.F_SETFL, fl | os.O_NONBLOCK)
+    os.close(pw)
+    timed_out = False
+    try:
+        p.wait(timeout=timeout)
+    except subprocess.TimeoutExpired:
+        timed_out = True
+        try:
+            os.killpg(p.pid, signal.SIGKILL)
+        except (ProcessLookupError, PermissionError):
+            pass
+        p.wait()
+    try:
+        cat.wait(timeout=30)
+    except subprocess.TimeoutExpired:
+        cat.kill()
+        cat.wait()
+    got.seek(0)
+    out = got.read()
+    got.close()
+    ef.seek(0)
+    err = ef.read()
+    ef.close()
+    shutil.rmtree(pdir, ignore_errors=True)
+    return Result(p.returncode, out, err, timed_out), out
+
+
 def output_limit_sweep(binary, cwd, argv, env=None, tmpdir=None, max_points=40, rng=None):
     """The fault-free report, then the same run with stdout limited to every line boundary (and a few other lengths) of that
     report. Returns (baseline bytes or None, [(limit, Result, accepted bytes)])."""
